@@ -1,6 +1,6 @@
 ------------------------------ MODULE GenDepDB ------------------------------
 (* Call-sequence generator for the C17 driver: random declarations (valid and invalid) *)
-EXTENDS MC_DepDB, Json, IOUtils
+EXTENDS MC_DepDB, Json, IOUtils, SequencesExt
 VARIABLES hist, done
 gvars == <<db, ncalls, last, hist, done>>
 GenDepth == IF "GEN_DEPTH" \in DOMAIN IOEnv THEN atoi(IOEnv.GEN_DEPTH) ELSE 6
@@ -14,8 +14,13 @@ GenCall ==
       c == RandomElement(Ctrls)
       no == RandomElement({0, 1, 1, 2})
       ni == RandomElement({0, 1, 2, 2, 3})
+      (* the inputs the controller has now, same keys, kinds drawn again: an update that changes nothing but the kind of inputs *)
+      cur == IF c \in DOMAIN db.ins THEN SetToSeq(db.ins[c]) ELSE <<>>
+      rekinded == [i \in 1..Len(cur) |-> I(cur[i].typ, cur[i].id, RandomElement(RKinds))]
   IN IF c \in Registered(db) /\ db.flav[c] = "r" /\ RandomElement(1..3) > 1
-     THEN [op |-> "update", c |-> c, fl |-> "r", outs |-> <<>>, ins |-> [i \in 1..ni |-> RandIn("r", i)]]
+     THEN IF cur # <<>> /\ RandomElement(1..3) = 1
+          THEN [op |-> "update", c |-> c, fl |-> "r", outs |-> <<>>, ins |-> rekinded]
+          ELSE [op |-> "update", c |-> c, fl |-> "r", outs |-> <<>>, ins |-> [i \in 1..ni |-> RandIn("r", i)]]
      ELSE [op |-> "register", c |-> c, fl |-> fl, outs |-> [i \in 1..no |-> RandOut(i)], ins |-> [i \in 1..ni |-> RandIn(fl, i)]]
 GenStep == \E call \in {GenCall} :
              /\ db' = PropCall(db, call)[2] /\ ncalls' = ncalls + 1 /\ last' = last
